@@ -179,7 +179,7 @@ def run_model(lines, timeout=1800, line_timeout=120):
         # the extracted code recurses on lists: give it the stack it needs (native stack = ulimit -s)
         return subprocess.Popen(["bash", "-c", "ulimit -v 3000000; ulimit -s unlimited 2>/dev/null || ulimit -s 4000000; exec " + VMODEL],
                                 stdin=subprocess.PIPE, stdout=subprocess.PIPE, stderr=subprocess.DEVNULL,
-                                universal_newlines=True, env=dict(os.environ, OCAMLRUNPARAM="l=8G"))
+                                universal_newlines=True, env=dict(os.environ, OCAMLRUNPARAM="l=8G"), preexec_fn=os.setsid)
 
     def work(i):
         sl = shards[i]
@@ -200,7 +200,7 @@ def run_model(lines, timeout=1800, line_timeout=120):
                     time.sleep(1)
                     if time.time() - last[0] > line_timeout or time.time() > deadline:
                         stalled[0] = True
-                        p.kill()
+                        _killgroup(p)
                         return
             wd = threading.Thread(target=watchdog)
             wd.daemon = True
@@ -210,11 +210,8 @@ def run_model(lines, timeout=1800, line_timeout=120):
                 last[0] = time.time()
                 if len(got) - n0 >= len(todo):
                     break
+            _killgroup(p)
             p.stdout.close()
-            try:
-                p.kill()
-            except Exception:
-                pass
             p.wait()
             if len(got) < len(sl):
                 # the process ended before answering line len(got): that line is the one it could not do
@@ -234,6 +231,18 @@ def run_model(lines, timeout=1800, line_timeout=120):
         for j, o in enumerate(outs[i]):
             res[i + j * nshard] = o
     return res
+
+
+def _killgroup(p):
+    """kill the worker and anything it started (it runs in its own process group)"""
+    import signal
+    try:
+        os.killpg(p.pid, signal.SIGKILL)
+    except Exception:
+        try:
+            p.kill()
+        except Exception:
+            pass
 
 
 def _feed(p, todo):
@@ -260,34 +269,61 @@ def model_unanswered(o):
     return o is None or o.startswith("modelcrash") or o.startswith("modeltimeout")
 
 
-def _run_go_serial(lines, binary, per_case_timeout, env):
-    """Feed lines to one vh process; on a crash/hang mark that case and restart after it."""
+def _run_go_serial(lines, binary, per_case_timeout, env, retry=True):
+    """Feed lines to one vh process and read the answers line by line.  A case that crashes the process is marked
+    'fatal ...', a case with no answer within per_case_timeout seconds is marked 'timeout'; the process is restarted
+    after it, so a bad case costs its own time only.  A 'timeout' is confirmed by running that case once more alone
+    with four times the limit (a loaded machine must not turn a slow answer into a verdict)."""
+    import threading
     res = []
-    i = 0
     n = len(lines)
-    while i < n:
-        chunk = lines[i:]
-        p = subprocess.Popen(["bash", "-c", "ulimit -v %s; exec %s" % (env.get("VH_ULIMIT_KB", "6000000"), binary)],
-                             stdin=subprocess.PIPE, stdout=subprocess.PIPE, stderr=subprocess.PIPE,
-                             universal_newlines=True, env=env)
-        try:
-            o, e = p.communicate("\n".join(chunk) + "\n", timeout=max(30, per_case_timeout * len(chunk) / 50.0 + 60))
-            timed_out = False
-        except subprocess.TimeoutExpired:
-            p.kill()
-            o, e = p.communicate()
-            timed_out = True
-        got = o.split("\n")
-        if got and got[-1] == "":
-            got.pop()
-        # a partially written last line cannot be trusted
-        if len(got) > len(chunk):
-            got = got[:len(chunk)]
-        res.extend(got)
-        i += len(got)
-        if len(got) < len(chunk):
-            if timed_out:
-                res.append("timeout")
+    cmd = ["bash", "-c", "ulimit -v %s; exec %s" % (env.get("VH_ULIMIT_KB", "6000000"), binary)]
+    while len(res) < n:
+        todo = lines[len(res):]
+        p = subprocess.Popen(cmd, stdin=subprocess.PIPE, stdout=subprocess.PIPE, stderr=subprocess.PIPE,
+                             universal_newlines=True, env=env, preexec_fn=os.setsid)
+        feeder = threading.Thread(target=_feed, args=(p, todo))
+        feeder.daemon = True
+        feeder.start()
+        errbuf = []
+        et = threading.Thread(target=lambda: errbuf.append(p.stderr.read()))
+        et.daemon = True
+        et.start()
+        last = [time.time()]
+        stalled = [False]
+        done = [False]
+
+        def watchdog():
+            while p.poll() is None and not done[0]:
+                time.sleep(0.2)
+                if time.time() - last[0] > per_case_timeout:
+                    stalled[0] = True
+                    _killgroup(p)
+                    return
+        wd = threading.Thread(target=watchdog)
+        wd.daemon = True
+        wd.start()
+        n0 = len(res)
+        for o in p.stdout:
+            if not o.endswith("\n"):
+                break                      # a partially written last line cannot be trusted
+            res.append(o[:-1])
+            last[0] = time.time()
+            if len(res) - n0 >= len(todo):
+                break
+        done[0] = True
+        _killgroup(p)
+        p.wait()
+        et.join(2)
+        if len(res) < n:
+            e = errbuf[0] if errbuf else ""
+            if stalled[0]:
+                tag = "timeout"
+                if retry:
+                    again = _run_go_serial([lines[len(res)]], binary, per_case_timeout * 4, env, retry=False)
+                    if again and again[0] != "timeout":
+                        tag = again[0]
+                res.append(tag)
             else:
                 tag = "fatal"
                 if "out of memory" in e or "cannot allocate" in e:
@@ -297,7 +333,6 @@ def _run_go_serial(lines, binary, per_case_timeout, env):
                 elif "DATA RACE" in e:
                     tag = "fatal race"
                 res.append(tag)
-            i += 1
     return res
 
 
